@@ -440,3 +440,12 @@ Proof.
   - destruct H as [Hb Hk]. split; [|intros rs; apply nopanic_panics_in; apply Hk].
     revert Hb. induction bs as [|[h b] r IH]; [intros; exact I|]. intros [H1 H2]. split; [apply nopanic_panics_in; exact H1|apply IH; exact H2].
 Qed.
+
+(* bind whose first part does not move the monitor: the rest starts from the same state *)
+Lemma safe_bind_neutral {S} (step : S -> call -> resp -> S) (okc : S -> call -> Prop) {A B} (p : prog A) (f : A -> prog B) (st : S) :
+  allcalls (fun _ c => okc st c /\ neutral S step c) p -> (forall a, safe S step okc st (f a)) -> safe S step okc st (bind p f).
+Proof.
+  induction p as [a|s|s c k IH|s bs k IH] using prog_ind_k; intros Hp Hf; cbn in *; auto.
+  - destruct Hp as [[Hc Hn] Hk]. split; [exact Hc|]. intros r. rewrite Hn. apply IH; [apply Hk|exact Hf].
+  - destruct Hp as [Hb Hk]. split; [exact Hb|]. intros rs. apply IH; [apply Hk|exact Hf].
+Qed.
